@@ -339,10 +339,43 @@ def one_case(ctx, plan, mode, first, case_extra=None):
     ctx.count('h2_events', H2['events'] - ev0)
     if log:
         ctx.count('suspects_recorded', len(log))
+    if mode == 'plain' and plan['pos'] != 'cse' and kind != 'failk-once':
+        trim_after_failure(ctx, plan, case, key_base)
     if ctx.counters['cases'] % 60 == 1:
         ctx.sample({'cells': faulty['sheets'], 'arrays': faulty['arrays'], 'failing': F, 'second': plan['G'],
                     'kind': kind, 'mode': mode, 'first_touch': first, 'position': plan['pos'],
                     'transient_state_notes': log[:3]})
+
+
+def trim_after_failure(ctx, plan, case, key_base):
+    """follow-up history with trim_graph: the failing cell feeds the output but does not depend on the input, so
+    trimming has to evaluate it to freeze it.  Whether trim_graph refuses or raises, a dependant of the failing
+    cell must not start returning a value afterwards."""
+    meta, F = plan['meta'], plan['F']
+    infl_f = wbgen.influencers(meta, F) | {F}
+    for d in sorted(wbgen.dependants(meta, F)):
+        if d == plan['probe'] or meta['formulas'][d]['form'] in ('rowcol', 'intersect', 'probe'):
+            continue
+        inputs = sorted(a for a in wbgen.influencers(meta, d) if a in meta['inputs'] and a not in infl_f and
+                        not a.startswith(wbgen.SD + '!'))
+        if not inputs:
+            continue
+        comp = wb.compile_mem(plan['faulty'], plugins='vp.plugins')
+        plugins.reset()
+        r0 = call(comp.evaluate, d)
+        if r0[0] != 'pycel':
+            return                      # the dependant does not read the failing value on this path
+        t = call(comp.trim_graph, [inputs[0]], [d])
+        ctx.count('trim_after_failure')
+        ctx.count('trim_after_failure:' + t[0])
+        r1 = call(comp.evaluate, d)
+        if r1[0] == 'v':
+            c2 = dict(case, trim={'input': inputs[0], 'output': d})
+            ctx.violation(f'dependant-returns-a-value-after-trim_graph/{key_base}',
+                          f'evaluate({d!r}) raised {r0[1]}; after trim_graph([{inputs[0]!r}], [{d!r}]) (which '
+                          f'{"returned" if t[0] == "v" else "raised " + str(t[1])}) it returns {r1[1]!r} although '
+                          f'{F!r} still fails', c2)
+        return
 
 
 # --------------------------------------------------------------------------- failure inside a cycle
@@ -354,8 +387,18 @@ def one_cycle(ctx, spec, info, kind, idx, case=None):
     c = F.rsplit('!', 1)[1]
     faulty_cells = dict(cells)
     faulty_cells[c] = wrap(cells[c], kind, 'f')
-    calc = {'iterate': True, 'count': 200, 'delta': 1e-9}
+    calc = {'iterate': True, 'count': 80, 'delta': 1e-9}
     faulty = {'sheets': [[spec['sheets'][0][0], faulty_cells]], 'names': {}, 'arrays': [], 'calc': calc}
+    # the reference values of the repaired models are computed BEFORE the failing model is touched: the
+    # iteration tracker is one per thread, so a healthy model evaluated in between would hide leaked state
+    consts = [2.5, -4.0, 7.0, 0.5]
+    wants = []
+    for const in consts:
+        rep_cells = dict(cells)
+        rep_cells[c] = const
+        fresh = wb.compile_mem({'sheets': [[spec['sheets'][0][0], rep_cells]], 'names': {}, 'arrays': [],
+                                'calc': calc})
+        wants.append({a: call(fresh.evaluate, a) for a in info['cells']})
     case = {'kind': 'cycle', 'spec': spec, 'info': info, 'fault': kind, 'idx': idx}
     key_base = f'iterative/{kind}/cycle'
     plugins.reset()
@@ -392,76 +435,77 @@ def one_cycle(ctx, spec, info, kind, idx, case=None):
                 bad('retry-returns-a-value' if r[0] == 'v' else 'retry-raises-a-bare-exception',
                     f'retry evaluate({target!r}) gives {r!r}')
                 return
-    # repair
-    const = 2.5
-    r = call(comp.set_value, F, const)
-    if r[0] != 'v':
-        bad('repair-set_value-raises', f'set_value({F!r}, {const}) raised {r[1]}')
-        return
-    ctx.count('repairs')
-    rep_cells = dict(cells)
-    rep_cells[c] = const
-    fresh = wb.compile_mem({'sheets': [[spec['sheets'][0][0], rep_cells]], 'names': {}, 'arrays': [],
-                            'calc': calc})
-    for a in info['cells']:
-        got, want = call(comp.evaluate, a), call(fresh.evaluate, a)
-        ctx.count('repair_compares')
-        ok = got[0] == want[0] == 'v' and isinstance(got[1], (int, float)) and \
-            abs(got[1] - want[1]) <= 1e-6 * max(1.0, abs(want[1]))
-        if not ok:
-            which = 'overwritten' if a == F else 'dependant'
-            bad(f'after-repair-differs/{which}', f'after set_value({F!r}, {const}) evaluate({a!r}) = {got!r}; '
-                f'a fresh model of the repaired cycle gives {want!r}')
+    # repair, then several rounds of re-assignment: each round must converge again
+    for rnd, const in enumerate(consts):
+        r = call(comp.set_value, F, const)
+        if r[0] != 'v':
+            bad('repair-set_value-raises', f'set_value({F!r}, {const}) raised {r[1]}')
             return
+        ctx.count('repairs')
+        for a in info['cells']:
+            got, want = call(comp.evaluate, a), wants[rnd][a]
+            ctx.count('repair_compares')
+            ok = got[0] == want[0] == 'v' and isinstance(got[1], (int, float)) and \
+                abs(got[1] - want[1]) <= 1e-6 * max(1.0, abs(want[1]))
+            if not ok:
+                which = 'overwritten' if a == F else 'dependant'
+                bad(f'after-repair-differs/{which}', f'round {rnd + 1} after the failure: set_value({F!r}, {const}) '
+                    f'then evaluate({a!r}) = {got!r}; a fresh model of the repaired cycle gives {want!r}')
+                return
 
 
 def unbounded_case(ctx):
-    """directed: the failing cell sits in a column that another sheet reads as Src!A:A"""
+    """directed: the failing cell sits in a column that another sheet reads as Src!A:A (also when the column
+    clips to that single cell)"""
     install()
     for mode in ('plain', 'iterative'):
         for kind in ('nosuch', 'failk-always'):
-            bad_formula = '=NOSUCH(1)' if kind == 'nosuch' else '=FAILK("u",0,1)'
-            spec = {'sheets': [['Sheet1', {'B1': '=SUM(Src!A:A)', 'C1': '=B1+1', 'D1': '=Src!B1*2'}],
-                               ['Src', {'A1': 1, 'A2': bad_formula, 'A3': 3, 'B1': 5, 'B2': 6}]],
-                    'names': {}, 'arrays': [],
-                    'calc': {'iterate': True, 'count': 50, 'delta': 1e-6} if mode == 'iterative' else None}
-            case = {'kind': 'unbounded', 'mode': mode, 'fault': kind}
-            comp = wb.compile_mem(spec, plugins='vp.plugins')
-            plugins.reset()
-            ctx.count('cases')
-            ctx.count('directed:failing-cell-under-unbounded-reference')
-            ctx.case(('unbounded', mode, kind))
-            key = f'{mode}/{kind}/under-unbounded-reference'
-            r = call(comp.evaluate, 'Sheet1!C1')
-            if r[0] != 'pycel':
-                ctx.violation(f'first-failure-is-not-a-pycel-error/{key}', f'evaluate(C1) gives {r!r}', case)
-                continue
-            ctx.count('faults_raised')
-            ok = True
-            for target in ('Sheet1!C1', 'Sheet1!B1', 'Src!A:A', 'Src!A2', 'Src!A1:A3'):
-                r = call(comp.evaluate, target)
-                ctx.count('retries')
-                if r[0] != 'pycel':
-                    ctx.violation(('retry-returns-a-value/' if r[0] == 'v' else 'retry-raises-a-bare-exception/') + key,
-                                  f'retry evaluate({target!r}) gives {r!r}; it reads the failing cell Src!A2', case)
-                    ok = False
-                    break
-            if not ok:
-                continue
-            r = call(comp.evaluate, 'Sheet1!D1')
-            ctx.count('unrelated_compares')
-            if r != ('v', 10):
-                ctx.violation(f'unrelated-cell-differs/{key}', f'evaluate(D1) = {r!r}, expected 10', case)
-                continue
-            comp.set_value('Src!A2', 2)
-            ctx.count('repairs')
-            for target, want in (('Sheet1!C1', 7), ('Sheet1!B1', 6), ('Src!A:A', (1, 2, 3))):
-                r = call(comp.evaluate, target)
-                ctx.count('repair_compares')
-                if r[0] != 'v' or not wb.same(r[1], want):
-                    ctx.violation(f'after-repair-differs/dependant/{key}',
-                                  f'after set_value(Src!A2, 2) evaluate({target!r}) = {r!r}, expected {want!r}', case)
-                    break
+            for single in (False, True):
+                _unbounded_one(ctx, mode, kind, single)
+
+
+def _unbounded_one(ctx, mode, kind, single):
+    bad_formula = '=NOSUCH(1)' if kind == 'nosuch' else '=FAILK("u",0,1)'
+    src = {'A1': bad_formula, 'B1': 5} if single else {'A1': 1, 'A2': bad_formula, 'A3': 3, 'B1': 5, 'B2': 6}
+    failing = 'Src!A1' if single else 'Src!A2'
+    spec = {'sheets': [['Sheet1', {'B1': '=SUM(Src!A:A)', 'C1': '=B1+1', 'D1': '=Src!B1*2'}], ['Src', src]],
+            'names': {}, 'arrays': [],
+            'calc': {'iterate': True, 'count': 50, 'delta': 1e-6} if mode == 'iterative' else None}
+    case = {'kind': 'unbounded', 'mode': mode, 'fault': kind, 'single': single}
+    comp = wb.compile_mem(spec, plugins='vp.plugins')
+    plugins.reset()
+    ctx.count('cases')
+    ctx.count('directed:failing-cell-under-unbounded-reference')
+    ctx.case(('unbounded', mode, kind, single))
+    key = f'{mode}/{kind}/under-unbounded-reference' + ('-clipped-to-one-cell' if single else '')
+    r = call(comp.evaluate, 'Sheet1!C1')
+    if r[0] != 'pycel':
+        ctx.violation(f'first-failure-is-not-a-pycel-error/{key}', f'evaluate(C1) gives {r!r}', case)
+        return
+    ctx.count('faults_raised')
+    for target in ('Sheet1!C1', 'Sheet1!B1', 'Src!A:A', failing) + (() if single else ('Src!A1:A3',)):
+        r = call(comp.evaluate, target)
+        ctx.count('retries')
+        if r[0] != 'pycel':
+            ctx.violation(('retry-returns-a-value/' if r[0] == 'v' else 'retry-raises-a-bare-exception/') + key,
+                          f'retry evaluate({target!r}) gives {r!r}; it reads the failing cell {failing}', case)
+            return
+    r = call(comp.evaluate, 'Sheet1!D1')
+    ctx.count('unrelated_compares')
+    if r != ('v', 10):
+        ctx.violation(f'unrelated-cell-differs/{key}', f'evaluate(D1) = {r!r}, expected 10', case)
+        return
+    comp.set_value(failing, 2)
+    ctx.count('repairs')
+    wants = (('Sheet1!C1', 3), ('Sheet1!B1', 2), ('Src!A:A', 2)) if single else \
+        (('Sheet1!C1', 7), ('Sheet1!B1', 6), ('Src!A:A', (1, 2, 3)))
+    for target, want in wants:
+        r = call(comp.evaluate, target)
+        ctx.count('repair_compares')
+        if r[0] != 'v' or not wb.same(r[1], want):
+            ctx.violation(f'after-repair-differs/dependant/{key}',
+                          f'after set_value({failing}, 2) evaluate({target!r}) = {r!r}, expected {want!r}', case)
+            return
 
 
 def run(ctx):
